@@ -292,6 +292,9 @@ impl FrameQueue {
         let mut rate_limited = false;
         let mut any_new_acks = false;
 
+        #[cfg(uflow_verif)]
+        crate::verif::trace::emit(crate::verif::trace::Event::AckGroupSeen { base_id: ack.base_id, bitfield: ack.bitfield });
+
         let mut bitfield_size = 0;
         for i in (0 .. 32).rev() {
             if ack.bitfield & (1 << i) != 0 {
